@@ -25,10 +25,24 @@ func stdVariants(profile string) []variant {
 	}
 }
 
+var reloadFaults = []string{"reload_valid", "reload_invalid"}
+
+func reloadVariants(profile string) []variant {
+	return []variant{
+		{Name: profile + "-reload", Profile: profile, Policy: "rtc", Steps: 90, Faults: reloadFaults, FaultRate: 0.03, Weight: 4},
+		{Name: profile + "-reload-churn", Profile: profile, Policy: "rtc", Steps: 90, Faults: with(reloadFaults, "confirm_late", "node_loss", "app_remove_live"), FaultRate: 0.03, Weight: 2},
+		{Name: profile + "-reload-interleaved", Profile: profile, Policy: "rnd", PreemptP: 0.05, Steps: 70, Faults: with(reloadFaults, "xchan_reorder"), FaultRate: 0.03, Weight: 2},
+	}
+}
+
 var plans = map[string]plan{
 	"C01": {Variants: append(stdVariants("base"), stdVariants("gang")[1]), QuickRuns: 400, QuickSecs: 70, ThoroughRuns: 40000, ThoroughSecs: 1500},
+	"C02": {Variants: append(stdVariants("quota"), stdVariants("base")[0], stdVariants("gang")[1]), QuickRuns: 400, QuickSecs: 70, ThoroughRuns: 40000, ThoroughSecs: 1500},
 	"C03": {Variants: append(stdVariants("base"), stdVariants("gang")...), QuickRuns: 400, QuickSecs: 70, ThoroughRuns: 40000, ThoroughSecs: 1500},
 	"C04": {Variants: append(stdVariants("base"), stdVariants("gang")...), QuickRuns: 400, QuickSecs: 70, ThoroughRuns: 40000, ThoroughSecs: 1500},
+	"C05": {Variants: append(append(stdVariants("limits"), stdVariants("quota")[0]), reloadVariants("limits")...), QuickRuns: 400, QuickSecs: 70, ThoroughRuns: 40000, ThoroughSecs: 1500},
+	"C15": {Variants: append(reloadVariants("quota"), reloadVariants("limits")...), QuickRuns: 400, QuickSecs: 70, ThoroughRuns: 40000, ThoroughSecs: 1500},
+	"C16": {Variants: append(append(reloadVariants("quota"), reloadVariants("limits")...), reloadVariants("base")...), QuickRuns: 400, QuickSecs: 70, ThoroughRuns: 40000, ThoroughSecs: 1500},
 	"C09": {Variants: stdVariants("base"), QuickRuns: 400, QuickSecs: 70, ThoroughRuns: 40000, ThoroughSecs: 1500},
 	"C10": {Variants: append(stdVariants("base"), stdVariants("gang")...), QuickRuns: 400, QuickSecs: 70, ThoroughRuns: 40000, ThoroughSecs: 1500},
 	"C11": {Variants: stdVariants("maxapps"), QuickRuns: 400, QuickSecs: 70, ThoroughRuns: 40000, ThoroughSecs: 1500},
